@@ -401,16 +401,29 @@ pub struct ZerosPt {
     pub poly_tol: Option<f64>,
 }
 pub struct OrthoZeros;
-/// admissible: leading coefficient above the root tolerance and evaluation noise of the monomial form below it
-fn admissible(fam: usize, n: usize, tol: f64) -> bool {
+/// root condition number of the zeros in the monomial form: max_i sum_k |c_k||z_i|^k / (|z_i| |p'(z_i)|)
+fn root_condition(fam: usize, n: usize) -> f64 {
+    let c = ortho_coeffs(fam, n);
+    ortho_zeros(fam, n)
+        .iter()
+        .map(|z| {
+            let s: f64 = c.iter().enumerate().map(|(k, ck)| ck.abs() * z.abs().powi(k as i32)).sum();
+            let dp: f64 = c.iter().enumerate().skip(1).map(|(k, ck)| k as f64 * ck * z.powi(k as i32 - 1)).sum();
+            s / (z.abs().max(1e-3) * dp.abs().max(1e-300))
+        })
+        .fold(0.0, f64::max)
+}
+/// admissible ("monomial form well conditioned, leading coefficient not negligible"): the leading coefficient is at
+/// least 10x the root tolerance and 10x the coefficient-zeroing tolerance, and rounding-level perturbations of the
+/// coefficients move no zero by more than a tenth of the tolerance (eps x condition <= tol/10).  A diagnostic sweep
+/// (VERIF_C14_SWEEP=1) shows the repaired library failing only from leading coefficient < tol or eps x condition > tol
+/// on, i.e. a factor 10 beyond either limit.
+fn admissible(fam: usize, n: usize, tol: f64, poly_tol: f64) -> bool {
     if n < 2 {
         return true;
     }
     let c = ortho_coeffs(fam, n);
-    let zs = ortho_zeros(fam, n);
-    let radius = zs.iter().fold(0.0f64, |m, x| m.max(x.abs()));
-    let noise = 64.0 * EPS * c.iter().enumerate().map(|(k, ck)| ck.abs() * radius.powi(k as i32)).sum::<f64>();
-    c[n].abs() > 4.0 * tol && noise <= tol / 4.0
+    c[n].abs() >= 10.0 * tol && c[n].abs() >= 10.0 * poly_tol && EPS * root_condition(fam, n) <= 0.1 * tol
 }
 impl Check for OrthoZeros {
     type P = ZerosPt;
@@ -418,19 +431,17 @@ impl Check for OrthoZeros {
         "orthogonal-zeros"
     }
     fn rule(&self) -> String {
-        "legendre_zeros, hermite_zeros, laguerre_zeros for every n from 0 up to the largest index whose monomial form is well conditioned for the tolerance (leading coefficient > 4 tol and evaluation noise 64 eps sum|c_k| R^k <= tol/4, computed per family and reported through the points enumerated) x tolerances x coefficient-zeroing tolerance {1e-14, 1e-30, tol/100}; reference zeros by interlacing and bisection on the three-term recurrence; signature = (family, n, tolerance)".into()
+        "legendre_zeros, hermite_zeros, laguerre_zeros for every n in 0..=22 whose monomial form is well conditioned for the tolerance (leading coefficient >= 10 tol and >= 10 x the zeroing tolerance, eps x root condition number <= tol/10; computed per family, the admitted points are the ones enumerated) x tolerances x coefficient-zeroing tolerance {1e-14, 1e-30, tol/100}; reference zeros by interlacing and bisection on the three-term recurrence; signature = (family, n, tolerance)".into()
     }
     fn points(&self, _t: Tier) -> Vec<ZerosPt> {
         let mut v = vec![];
         for fam in 0..3 {
             for &tol in &[1e-6, 1e-8, 1e-10] {
-                for n in 0..=20 {
-                    if admissible(fam, n, tol) {
-                        v.push(ZerosPt { fam, n, tol, poly_tol: None });
-                        v.push(ZerosPt { fam, n, tol, poly_tol: Some(1e-30) });
-                        v.push(ZerosPt { fam, n, tol, poly_tol: Some(tol * 1e-2) });
-                    } else {
-                        break;
+                for n in 0..=22 {
+                    for poly_tol in [None, Some(1e-30), Some(tol * 1e-2)] {
+                        if admissible(fam, n, tol, poly_tol.unwrap_or(1e-14)) {
+                            v.push(ZerosPt { fam, n, tol, poly_tol });
+                        }
                     }
                 }
             }
@@ -476,7 +487,9 @@ impl Check for OrthoZeros {
                     }
                     let worst = z.iter().zip(&want).map(|(a, b)| (a - b).abs() / b.abs().max(1.0)).fold(0.0, f64::max);
                     o.metric(&format!("{}-zero-error", FAMILIES[p.fam]), worst);
-                    if !(worst <= 1e-8f64.max(8.0 * p.tol)) {
+                    let allowed = 8.0 * p.tol + 16.0 * EPS * root_condition(p.fam, p.n);
+                    o.metric(&format!("{}-zero-error/allowed", FAMILIES[p.fam]), worst / allowed);
+                    if !(worst <= allowed) {
                         o.viol(&subj, "zeros-match-true-zeros", format!("{}: worst relative deviation {:e}; got {:?} want {:?}", ctx(), worst, z, want));
                     }
                 }
@@ -488,7 +501,51 @@ impl Check for OrthoZeros {
     }
 }
 
+/// diagnostic (VERIF_C14_SWEEP=1): outcome and accuracy of the three zero functions over a wide (n, tol) range together
+/// with the conditioning of the zeros in the monomial form; used to place the admissibility threshold, never a verdict
+fn sweep() {
+    for fam in 0..3 {
+        for n in 2..=22usize {
+            let c = ortho_coeffs(fam, n);
+            let zs = ortho_zeros(fam, n);
+            // root condition: sum|c_k||z|^k / (|z| |p'(z)|), p' from the coefficients
+            let kappa = zs.iter().map(|z| {
+                let s: f64 = c.iter().enumerate().map(|(k, ck)| ck.abs() * z.abs().powi(k as i32)).sum();
+                let dp: f64 = c.iter().enumerate().skip(1).map(|(k, ck)| k as f64 * ck * z.powi(k as i32 - 1)).sum();
+                s / (z.abs().max(1e-3) * dp.abs().max(1e-300))
+            }).fold(0.0, f64::max);
+            let mut row = format!("{} n={:2} eps*kappa={:.1e} lead={:.1e}", FAMILIES[fam], n, EPS * kappa, c[n].abs());
+            for &tol in &[1e-6, 1e-8, 1e-10, 1e-12] {
+                for &pt in &[1e-14, 1e-30] {
+                    let res = vcore::guard(|| match fam {
+                        0 => legendre_zeros::<f64>(n as u32, tol, pt, 2000),
+                        1 => hermite_zeros::<f64>(n as u32, tol, pt, 2000),
+                        _ => laguerre_zeros::<f64>(n as u32, tol, pt, 2000),
+                    });
+                    let cell = match res {
+                        Ok(Ok(mut z)) if z.len() == n && z.iter().all(|x| x.is_finite()) => {
+                            z.sort_by(|a, b| a.partial_cmp(b).unwrap());
+                            let w = z.iter().zip(&zs).map(|(a, b)| (a - b).abs() / b.abs().max(1.0)).fold(0.0, f64::max);
+                            format!("{:.0e}", w)
+                        }
+                        Ok(Ok(_)) => "bad".into(),
+                        Ok(Err(_)) => "Err".into(),
+                        Err(_) => "panic".into(),
+                    };
+                    row += &format!(" {:>6}", cell);
+                }
+            }
+            eprintln!("{}", row);
+        }
+    }
+}
+
 pub fn main(mut r: Report) -> ! {
+    if std::env::var("VERIF_C14_SWEEP").is_ok() {
+        sweep();
+        eprintln!("MACHINERY: diagnostic sweep only");
+        std::process::exit(2);
+    }
     r.assumptions = vec![
         "true roots are the ones the polynomial is expanded from in the harness; allowed distance (2 tol + 64 eps cond)/|p'(z)| + 16 eps |z|".into(),
         "tolerances are never below the evaluation noise 64 eps sum|c_k| 3^k (the stopping rule is an absolute residual; below the noise Err is legitimate and no claim is made)".into(),
